@@ -30,3 +30,5 @@ with warnings.catch_warnings():
 sys.argv = _saved_argv
 import logging  # noqa: E402
 logging.disable(logging.CRITICAL)
+warnings.filterwarnings('ignore', category=RuntimeWarning)
+warnings.filterwarnings('ignore', category=DeprecationWarning)
